@@ -69,7 +69,7 @@ def r18_2(ck, F):
     sh = [mir.show(x) for x in leaves]
     has_len = any("len" in s and "buf" in s for s in sh)
     has_chunk = any("poll_chunk_size" in s or "chunk_size" in s for s in sh)
-    has_rem = any(x[0] == "bin" and x[1] == "Sub" and "bytes_written" in mir.show(x[3]) for x in [mir.strip_casts(l) for l in leaves])
+    has_rem = any((lambda a: a is not None and a[0] == "Sub" and "bytes_written" in mir.show(a[2]))(arith(l)) for l in leaves)
     ck.expect(has_len and has_chunk and has_rem, "poll_write#clamp", f"write length = min over {sh}",
               f"write length {sh} is not clamped by buf.len(), remaining size and chunk size", b.loc(0))
     wz = []
